@@ -6,6 +6,7 @@
    the tested part; the implementation-side shadow oracle (harness/seq.c) checks overlap and contents on the real allocator. -/
 import MiVerif.Lemmas.PageMore
 import MiVerif.Lemmas.SegReach
+import MiVerif.Lemmas.ExtendLoop
 
 namespace C01
 open PageM
@@ -170,6 +171,53 @@ theorem segment_tiling_reachable (entries info : Nat) (hi : 0 < info) (hie : inf
     | free s =>
       obtain ⟨sp, c, u, hr, hm⟩ := hen
       exact page_free_keeps_tiling g sp s c u hr hm
+
+/-- **the real free-list extension, regenerated from src/page.c** (`mi_page_free_list_extend`, a `while` loop translated by
+    extract/translate.py to `whileN`; stores are the effect log): for a page whose block area starts at `ps page`, with `cap` blocks
+    handed to the lists so far and `ext ≥ 1` fresh ones, the function makes exactly these stores — link fresh block `cap + i` to
+    `cap + i + 1` for every `i < ext`, re-link the last fresh block to the old free list, set `page->free` to the first fresh block -/
+theorem generated_free_list_extend_exact_stores (ps : Nat → Nat) (cap free page bs ext stats : Nat) (hbs : 0 < bs) (hext : 0 < ext)
+    (hfit : ps page + (cap + ext + 1) * bs < 2^64) :
+    GenL.mi_page_free_list_extend ps cap free page bs ext stats =
+      ExtendL.links page (ps page + cap * bs) bs 0 ext ++
+        [("mi_block_set_next", [page, ps page + (cap + ext - 1) * bs, free]), ("set:free", [page, ps page + cap * bs])] :=
+  ExtendL.extend_exact ps cap free page bs ext stats hbs hext (by have : (2:Nat)^64 = 18446744073709551616 := by decide
+                                                                  omega)
+
+/-- … which is the page model's `extend`: afterwards `page->free` is block `cap`, the `next` of fresh block `cap + i` is block
+    `cap + i + 1`, the `next` of the last fresh block is the old list: the free list is `[cap, …, cap + ext - 1] ++ old free`
+    (`PageM.extend`) -/
+theorem generated_free_list_extend_threads_fresh_blocks (ps : Nat → Nat) (cap free page bs ext stats : Nat) (hbs : 0 < bs) (hext : 0 < ext)
+    (hfit : ps page + (cap + ext + 1) * bs < 2^64) :
+    ExtendL.freeAfter (GenL.mi_page_free_list_extend ps cap free page bs ext stats) page = some (ps page + cap * bs) ∧
+    ∀ i, i < ext → ExtendL.nextAfter (GenL.mi_page_free_list_extend ps cap free page bs ext stats) page (ps page + (cap + i) * bs)
+      = some (if i + 1 < ext then ps page + (cap + i + 1) * bs else free) :=
+  ExtendL.extend_chain ps cap free page bs ext stats hbs hext (by have : (2:Nat)^64 = 18446744073709551616 := by decide
+                                                                  omega)
+
+/-- … and it writes nowhere else: every `next` pointer it stores is stored into a fresh block (index `cap ≤ k < cap + ext`), never
+    into a block that is live or already on a list -/
+theorem generated_free_list_extend_writes_only_fresh_blocks (ps : Nat → Nat) (cap free page bs ext stats : Nat) (hbs : 0 < bs)
+    (hext : 0 < ext) (hfit : ps page + (cap + ext + 1) * bs < 2^64) :
+    ∀ c ∈ GenL.mi_page_free_list_extend ps cap free page bs ext stats,
+      c = ("set:free", [page, ps page + cap * bs]) ∨
+      ∃ k nx, cap ≤ k ∧ k < cap + ext ∧ c = ("mi_block_set_next", [page, ps page + k * bs, nx]) := by
+  intro c hc
+  rw [generated_free_list_extend_exact_stores ps cap free page bs ext stats hbs hext hfit] at hc
+  rcases List.mem_append.mp hc with h | h
+  · obtain ⟨i, _, hi, e⟩ := ExtendL.mem_links _ _ _ _ _ _ h
+    right
+    refine ⟨cap + i, ps page + cap * bs + (i + 1) * bs, by omega, by omega, ?_⟩
+    rw [e, ExtendL.addr_split (ps page) cap i bs]
+  · simp only [List.mem_cons, List.mem_nil_iff, or_false] at h
+    rcases h with h | h
+    · right; exact ⟨cap + ext - 1, free, by omega, by omega, h⟩
+    · left; exact h
+
+-- non-vacuity of the three statements above: a page area at 2^16, 2 blocks of 16 bytes handed out, 3 fresh ones, old free list 77
+example : GenL.mi_page_free_list_extend (fun _ => 65536) 2 77 1 16 3 0 =
+    [("mi_block_set_next", [1, 65568, 65584]), ("mi_block_set_next", [1, 65584, 65600]), ("mi_block_set_next", [1, 65600, 65616]),
+     ("mi_block_set_next", [1, 65600, 77]), ("set:free", [1, 65568])] := by decide
 
 -- non-vacuity: a concrete reachable page state
 example : Inv ([Op.extend 4, Op.pop, Op.pop, Op.freeLocal 0, Op.lfCollect].foldl step (init 8)) := page_invariant_reachable 8 _
